@@ -6,6 +6,7 @@
 //! values, strings as code-point lists) goes to the Lean model; the five stage dumps go to the Lean
 //! interpreters.  A second stream holds definitions the derive must reject.
 use crate::c01;
+use cst::cst::CstNode;
 use crate::rng::Rng;
 use crate::sexp::{S, a, esc_line, l, n, tagged};
 use crate::util::{self, Outcome};
@@ -576,6 +577,95 @@ fn spec_string(defs: &[Def], t: &FT, v: &V) -> String {
     }
 }
 
+// ---- the real derive output, serialised in the shape of the Lean `GMethod`
+fn gexpr(e: &ast::ast::Expr) -> S {
+    use ast::ast::Expr;
+    match e {
+        Expr::EString { value, .. } => tagged("lit", vec![S::A(value.clone())]),
+        Expr::EPath { path, .. } if path.segments.len() == 1 => tagged("var", vec![a(&path.segments[0].ident.0)]),
+        Expr::ECall { func, args, .. } => match (&**func, args.as_slice()) {
+            (Expr::EPath { path, .. }, [arg]) if path.segments.len() == 1 => tagged("callfn", vec![a(&path.segments[0].ident.0), gexpr(arg)]),
+            (Expr::EField { expr, field, .. }, []) => tagged("callm", vec![gexpr(expr), a(&field.0)]),
+            _ => a("?call"),
+        },
+        Expr::EBinary { op: common_defs::BinaryOp::Add, lhs, rhs, .. } => tagged("concat", vec![gexpr(lhs), gexpr(rhs)]),
+        _ => a("?expr"),
+    }
+}
+
+fn pvars(ps: &[ast::ast::Pat]) -> Vec<S> {
+    ps.iter().map(|p| if let ast::ast::Pat::PVar { name, .. } = p { a(&name.0) } else { a("?pat") }).collect()
+}
+
+fn garm(path: Vec<S>, fields: Vec<S>, binders: Vec<S>, body: &ast::ast::Expr) -> S {
+    tagged("arm", vec![l(path), l(fields), l(binders), gexpr(body)])
+}
+
+fn gmethod(f: &ast::ast::Fn) -> S {
+    use ast::ast::{Expr, Pat};
+    let params: Vec<S> = f.params.iter().map(|(p, _)| a(&p.0)).collect();
+    let arms: Vec<S> = match &f.body {
+        Expr::EBlock { exprs, .. } => match exprs.as_slice() {
+            [Expr::ELet { pat: Pat::PStruct { name, fields, .. }, value, annotation: None, .. }, body] => {
+                let scrut_ok = matches!(&**value, Expr::EPath { path, .. } if path.segments.len() == 1 && Some(&path.segments[0].ident.0) == f.params.first().map(|p| &p.0.0));
+                vec![garm(
+                    name.segments.iter().map(|s| a(&s.ident.0)).collect(),
+                    fields.iter().map(|(n, _)| a(&n.0)).collect(),
+                    pvars(&fields.iter().map(|(_, p)| p.clone()).collect::<Vec<_>>()),
+                    if scrut_ok { body } else { &f.body },
+                )]
+            }
+            _ => vec![a("?block")],
+        },
+        Expr::EMatch { expr, arms, .. } => {
+            let scrut_ok = matches!(&**expr, Expr::EPath { path, .. } if path.segments.len() == 1 && Some(&path.segments[0].ident.0) == f.params.first().map(|p| &p.0.0));
+            if !scrut_ok {
+                vec![a("?scrutinee")]
+            } else {
+                arms.iter()
+                    .map(|arm| match &arm.pat {
+                        Pat::PConstr { constructor, args, .. } => garm(constructor.segments.iter().map(|s| a(&s.ident.0)).collect(), vec![], pvars(args), &arm.body),
+                        _ => a("?armpat"),
+                    })
+                    .collect()
+            }
+        }
+        // a struct without fields: the body is the literal itself
+        lit @ Expr::EString { .. } => vec![garm(vec![], vec![], vec![], lit)],
+        _ => vec![a("?body")],
+    };
+    let mut items = vec![a(&f.name.0), l(params), a(if matches!(f.ret_ty, Some(ast::ast::TypeExpr::TString)) { "string" } else { "?ret" })];
+    items.extend(arms);
+    tagged("method", items)
+}
+
+/// every impl block `derive::expand` appended, in order (the generated programs contain no impl of their own)
+fn derived_impls(src: &str) -> Option<S> {
+    let path = std::path::Path::new("main.gom");
+    let parsed = parser::parse(path, src);
+    if parsed.has_errors() {
+        return None;
+    }
+    let root = parser::syntax::MySyntaxNode::new_root(parsed.green_node);
+    let cst = cst::cst::File::cast(root)?;
+    let file = ast::lower::lower(cst).into_result().ok()?;
+    let expanded = std::panic::catch_unwind(std::panic::AssertUnwindSafe(|| compiler::derive::expand(file))).ok()?.ok()?;
+    let mut impls = Vec::new();
+    for item in &expanded.toplevels {
+        if let ast::ast::Item::ImplBlock(b) = item {
+            let ty = match &b.for_type {
+                ast::ast::TypeExpr::TCon { path } if path.segments.len() == 1 => path.segments[0].ident.0.clone(),
+                _ => "?type".into(),
+            };
+            let plain = b.attrs.is_empty() && b.generics.is_empty() && b.trait_name.is_none();
+            let mut items = vec![a(if plain { ty } else { format!("?impl:{}", ty) })];
+            items.extend(b.methods.iter().map(gmethod));
+            impls.push(tagged("impl", items));
+        }
+    }
+    Some(tagged("derived", impls))
+}
+
 fn emit(id: &str, dir: &std::path::Path, src: &str, out: &mut String) {
     writeln!(out, "{}\tSRC\t{}", id, esc_line(src)).unwrap();
     match util::compile_text(dir, src) {
@@ -612,6 +702,10 @@ fn reject_cases() -> Vec<(&'static str, String)> {
                 other = if d == "ToJson" { "ToString" } else { "ToJson" }
             ),
         ));
+        v.push(("duplicate-variant", format!("#[derive({d})]\nenum E {{ A, A(int32) }}\n{use_}")));
+        v.push(("duplicate-field", format!("#[derive({d})]\nstruct S {{ x: int32, x: string }}\n{use_}")));
+        v.push(("duplicate-type", format!("#[derive({d})]\nstruct S {{ x: int32 }}\n#[derive({d})]\nstruct S {{ y: string }}\n{use_}")));
+        v.push(("own-method-clash", format!("#[derive({d})]\nstruct S {{ x: int32 }}\nimpl S {{ fn {tr}(self: S) -> string {{ \"mine\" }} }}\n{use_}")));
         let _ = tr;
     }
     v
@@ -682,6 +776,10 @@ pub fn main(args: &util::Args) {
         let es: String = vals.iter().map(|(i, v)| spec_string(&defs, &FT::Named(*i), v) + "\n").collect();
         writeln!(out, "{}\tEXPJSON\t{}", id, esc_line(&ej.join("\n"))).unwrap();
         writeln!(out, "{}\tEXPSTR\t{}", id, esc_line(&es)).unwrap();
+        match derived_impls(&src) {
+            Some(sx) => writeln!(out, "{}\tDERIVED\t{}", id, sx.to_text()).unwrap(),
+            None => writeln!(out, "{}\tDERIVED\tnone", id).unwrap(),
+        }
         emit(&id, &dir, &src, &mut out);
     }
     // minimised past failures, and the corpus programs that use the derives (their .out files were recorded from real Go)
